@@ -387,8 +387,84 @@ class LinDevice:
         self.fired = []  # (op, k, site)
         self.log = log
         self.nonfinite_returns = 0
+        self.n_inner = {"gmres": 0, "minres": 0, "splu": 0}
+        self.inner_reports = []  # failures the underlying scipy routine itself reported: (op, k, observer?)
+
+    def _install_inner(self):
+        """Third layer: the scipy routines the wrappers call (looked up as attributes of scipy.sparse.linalg at call
+        time).  Records what they really report and can make the k-th call report non-convergence / a singular
+        factorisation the way scipy does (info > 0 with an unconverged vector; RuntimeError from splu)."""
+        import scipy.sparse.linalg as spl
+
+        dev = self
+
+        def _from_library():
+            site = call_site(3)
+            return bool(site), site_has(site, "estimate_rcond")
+
+        def _wanted(op, k):
+            for f in dev.faults:
+                if f.get("op") == "inner_" + op and f.get("at") == k:
+                    return True
+            return False
+
+        def wrap_iter(name):
+            orig = getattr(spl, name)
+
+            def proxy(A, b, *a, **kw):
+                lib, observer = _from_library()
+                if not lib:
+                    return orig(A, b, *a, **kw)
+                k = 0
+                if not observer:
+                    dev.n_inner[name] += 1
+                    k = dev.n_inner[name]
+                sol, info = orig(A, b, *a, **kw)
+                if not observer and _wanted(name, k):
+                    dev.fired.append(("inner_" + name, k, tuple(call_site(2)[:8])))
+                    if dev.log is not None:
+                        dev.log(("lin.fault", "inner_" + name, k))
+                    # what scipy hands back when it gives up: the current (useless) iterate and info > 0
+                    return np.asarray(sol) * 0.5 + 1.0, max(1, int(np.size(b)))
+                if info != 0:
+                    dev.inner_reports.append((name, k, observer))
+                return sol, info
+
+            proxy._sim_orig = orig
+            setattr(spl, name, proxy)
+
+        def wrap_splu():
+            orig = spl.splu
+
+            def proxy(A, *a, **kw):
+                lib, observer = _from_library()
+                if not lib:
+                    return orig(A, *a, **kw)
+                k = 0
+                if not observer:
+                    dev.n_inner["splu"] += 1
+                    k = dev.n_inner["splu"]
+                if not observer and _wanted("splu", k):
+                    dev.fired.append(("inner_splu", k, tuple(call_site(2)[:8])))
+                    if dev.log is not None:
+                        dev.log(("lin.fault", "inner_splu", k))
+                    raise RuntimeError("Factor is exactly singular")
+                try:
+                    return orig(A, *a, **kw)
+                except RuntimeError:
+                    dev.inner_reports.append(("splu", k, observer))
+                    raise
+
+            proxy._sim_orig = orig
+            spl.splu = proxy
+
+        if not hasattr(spl.gmres, "_sim_orig"):
+            wrap_iter("gmres")
+            wrap_iter("minres")
+            wrap_splu()
 
     def install(self):
+        self._install_inner()
         if self.installed:
             return
         from pygradflow.linear_solver.gmres_solver import GMRESSolver
